@@ -55,8 +55,13 @@ def do_op(op, base, target, version, metafile, scratch, plen=1, alt=False, route
                     os.makedirs(scratch, exist_ok=True)
                     ini = os.path.join(scratch, "cfg.ini")
                     with open(ini, "w") as fh:
-                        fh.write("[config]\nannounce =\n    http://cfg.example/announce\nweb-seed =\n    http://cfg.example/w/\n"
-                                 "comment = from config\n")
+                        # two configuration files in turn: a rich one and one that names a tracker only
+                        # (what the first one set must not linger in the process)
+                        if alt:
+                            fh.write("[config]\nannounce =\n    http://cfg.example/announce\nweb-seed =\n    http://cfg.example/w/\n"
+                                     "comment = from config\nsource = CFG\nprivate = true\n")
+                        else:
+                            fh.write("[config]\nannounce =\n    http://other.example/announce\n")
                     argv += ["--config", "--config-path", ini]
                 st = "ok"
                 try:
